@@ -18,6 +18,7 @@ def run(ctx):
     cells, table = TR.round_pair_table(rep, F)
     n3 = TR.needs_tz_crosscheck(rep, F, table)
     n4 = S.sticky(rep, F, fns)
+    S.radicand_exact(rep, F, fns)
     rep.floor('PROV-CTX final sinks', n1, 3)
     rep.floor('R-SIGN instances', n2, 2)
     rep.floor('lazy-flag cells', n3, 70)
